@@ -104,7 +104,10 @@ pub fn run(cfg: &Cfg, rep: &mut Report) {
         if ctx.index % 5 == 0 && !bare {
             let mut text = lit.clone();
             if rng.bool() || matches!(suffix[0], b'E' | b'e') {
-                text.push(b' ');
+                // any white space the grammar allows between number and suffix
+                for _ in 0..1 + rng.usize(2) {
+                    text.push(*rng.pick(b" \t\r\x0c  "));
+                }
             }
             text.extend_from_slice(&suffix);
             let toks: Vec<_> = Tokenizer::new_params(&text).collect();
